@@ -298,6 +298,75 @@ Qed.
 
 End Stores.
 
+(* ------------------------------------------------------------------ arrays (numeric and string alike) *)
+Section Arrays.
+Variable num : Type.
+Notation env := (env num).
+Notation val := (val num).
+
+Lemma assoc_z_set_z : forall {A} (l : list (Z * A)) k v,
+  assoc_z (set_z l k v) k = Some v /\ forall k', k' <> k -> assoc_z (set_z l k v) k' = assoc_z l k'.
+Proof.
+  intros A l k v. split.
+  - induction l as [|[k0 v0] r IH]; simpl.
+    + rewrite Z.eqb_refl. reflexivity.
+    + destruct (Z.eqb k0 k) eqn:E; simpl; [rewrite Z.eqb_refl; reflexivity | rewrite E; exact IH].
+  - intros k' Hne. induction l as [|[k0 v0] r IH]; simpl.
+    + destruct (Z.eqb k k') eqn:E; [apply Z.eqb_eq in E; congruence | reflexivity].
+    + destruct (Z.eqb k0 k) eqn:E; simpl.
+      * apply Z.eqb_eq in E. subst k0. destruct (Z.eqb k k') eqn:E2; [apply Z.eqb_eq in E2; congruence | reflexivity].
+      * destruct (Z.eqb k0 k'); [reflexivity | exact IH].
+Qed.
+
+Fixpoint dims_size (dims : list Z) : Z := match dims with [] => 1%Z | d :: r => (d * dims_size r)%Z end.
+
+(* row-major index = accumulator * size + offset, offset within the size *)
+Lemma flat_index_shape : forall dims subs a k, flat_index dims subs a = Some k ->
+  exists o, (0 <= o < dims_size dims)%Z /\ k = (a * dims_size dims + o)%Z.
+Proof.
+  induction dims as [|d dims IH]; intros subs a k H; destruct subs as [|j subs]; simpl in H; try discriminate.
+  - inversion H; subst. exists 0%Z. simpl. lia.
+  - destruct ((0 <=? j) && (j <? d))%Z%bool eqn:E; try discriminate.
+    apply andb_prop in E. destruct E as [E1 E2]. apply Z.leb_le in E1. apply Z.ltb_lt in E2.
+    destruct (IH _ _ _ H) as (o & Ho & Hk). exists (j * dims_size dims + o)%Z. simpl. split; [nia | lia].
+Qed.
+
+(* distinct in-range subscript lists address distinct cells *)
+Lemma flat_index_injective : forall dims subs subs' a k,
+  flat_index dims subs a = Some k -> flat_index dims subs' a = Some k -> subs = subs'.
+Proof.
+  induction dims as [|d dims IH]; intros subs subs' a k H H'; destruct subs as [|j subs]; destruct subs' as [|j' subs'];
+    simpl in H, H'; try discriminate; [reflexivity|].
+  destruct ((0 <=? j) && (j <? d))%Z%bool eqn:E; try discriminate.
+  destruct ((0 <=? j') && (j' <? d))%Z%bool eqn:E'; try discriminate.
+  destruct (flat_index_shape _ _ _ _ H) as (o & Ho & Hk). destruct (flat_index_shape _ _ _ _ H') as (o' & Ho' & Hk').
+  assert (j = j') by nia. subst j'. f_equal. eapply IH; eassumption.
+Qed.
+
+(* assignment to an array element stores into exactly the addressed element: that element reads back the value, every
+   other element of the array, every other array, every scalar and the PUT/GET store are untouched — whatever was
+   evaluated in between (the target is fixed before the right-hand side is evaluated) *)
+Theorem array_store_laws : forall (e : env) name dims cells k v,
+  assoc_s (e_arr num e) name = Some (dims, cells) ->
+  let e' := assign num e (TElem name k) v in
+  (exists cells', assoc_s (e_arr num e') name = Some (dims, cells') /\ assoc_z cells' k = Some v /\
+                  forall k', k' <> k -> assoc_z cells' k' = assoc_z cells k') /\
+  (forall other, other <> name -> assoc_s (e_arr num e') other = assoc_s (e_arr num e) other) /\
+  e_scal num e' = e_scal num e /\ e_saved num e' = e_saved num e /\ e_host num e' = e_host num e.
+Proof.
+  intros e name dims cells k v H. simpl. unfold assign. rewrite H. simpl.
+  destruct (var_store_laws (e_arr num e) name (dims, set_z cells k v)) as [L1 L2].
+  repeat split; auto.
+  exists (set_z cells k v). split; [exact L1|]. apply assoc_z_set_z.
+Qed.
+
+(* two element designators of the same array denote the same cell only if the subscripts are equal *)
+Theorem array_cells_distinct : forall dims subs subs' k k',
+  flat_index dims subs 0%Z = Some k -> flat_index dims subs' 0%Z = Some k' -> subs <> subs' -> k <> k'.
+Proof. intros dims subs subs' k k' H H' Hne Hk. subst k'. apply Hne. eapply flat_index_injective; eassumption. Qed.
+
+End Arrays.
+
 (* ------------------------------------------------------------------ tokenizer / compile *)
 Section Compile.
 Variable tbl : kwtable.
